@@ -15,7 +15,12 @@ use crate::refmodel::mdtok::*;
 
 pub struct VcMd;
 
-pub const LINE_KINDS: [&str; 24] = [
+pub const LINE_KINDS: [&str; 28] = [
+    // non-ASCII text in every line role (heading, prose, command, expectation)
+    "# \u{65e5}\u{672c}",
+    "\u{e9}t\u{e9} prose",
+    "$ \u{e9}cho",
+    "\u{e9} out",
     "",
     "Para",
     "# Head",
